@@ -608,7 +608,22 @@ func (pl *planner) tryStmt(fd *ast.FuncDecl, file *ast.File, s ast.Stmt, insertA
 		if x.Init != nil {
 			call = simple(x.Init)
 			if call == nil {
-				return // the condition is evaluated after the init statement
+				// the condition is evaluated after the init statement: when it holds a candidate call, the init
+				// statement is first moved out (`if I; C {…}` → `{ I; if C {…} }`, same scopes, same order); the call is
+				// then hoisted in the next round
+				if pl.hasCandidate(x.Cond) && insertAt == s.Pos() {
+					fname := pl.fset.PositionFor(s.Pos(), false).Filename
+					if src := pl.src[fname]; src != nil {
+						*pl.counter++
+						k := *pl.counter
+						site := fmt.Sprintf("%s: init statement of the if at %s moved out", fd.Name.Name, pl.fset.Position(x.Pos()))
+						initText := string(src[pl.offset(x.Init.Pos()):pl.offset(x.Init.End())])
+						pl.edits = append(pl.edits, Edit{File: fname, Start: pl.offset(x.If), End: pl.offset(x.Cond.Pos()), Text: "{ " + pl.lineDirective(x.Init.Pos()) + initText + "; if " + pl.lineDirective(x.Cond.Pos()), Site: site, group: k})
+						pl.edits = append(pl.edits, Edit{File: fname, Start: pl.offset(x.End()), End: pl.offset(x.End()), Text: " }" + pl.lineDirective(x.End()), Site: site, group: k})
+						pl.log = append(pl.log, "inlined: "+site)
+					}
+				}
+				return
 			}
 		} else {
 			call = first(x.Cond)
